@@ -8,6 +8,7 @@ class that ran.
 from __future__ import annotations
 
 import ast
+import re
 from typing import Callable, Dict, List, Optional, Set, Tuple
 
 from ..cfg import CFG, reaching_defs
@@ -556,6 +557,364 @@ def getter_owners(repo: Repo, fn: ast.AST, e: Optional[ast.AST], depth: int = 0)
     return out
 
 
+# ---------------------------------------------------------------------------------------------------------
+# D1 shape: the text that receives the designator Z is a complete RFC 3339 date-time at every instant
+# ---------------------------------------------------------------------------------------------------------
+_FULL_TIMESPEC = {"seconds", "milliseconds", "microseconds"}
+
+
+def _iso_call(e: Optional[ast.AST]) -> Optional[ast.Call]:
+    """*e* when it is `<datetime>.isoformat(..)` (a `str(..)` around it is transparent)."""
+    while isinstance(e, ast.Call) and isinstance(e.func, ast.Name) and e.func.id == "str" and len(e.args) == 1:
+        e = e.args[0]
+    return e if isinstance(e, ast.Call) and call_attr(e) == "isoformat" and isinstance(e.func, ast.Attribute) else None
+
+
+def _timespec(c: ast.Call) -> Optional[str]:
+    """The constant timespec of an isoformat call; 'auto' when absent, None when it is not a constant."""
+    ts = kwarg(c, "timespec") or (c.args[1] if len(c.args) > 1 else None)
+    if ts is None:
+        return "auto"
+    return ts.value if isinstance(ts, ast.Constant) and isinstance(ts.value, str) else None
+
+
+def _aware_receiver(fn: ast.AST, c: ast.Call) -> bool:
+    """The datetime rendered by isoformat call *c* carries a UTC offset (read with a tz argument and not made naive)."""
+    recv = expand(fn, c.func.value)
+    aware = False
+    for n in ast.walk(recv):
+        if not isinstance(n, ast.Call):
+            continue
+        tail = (call_attr(n) or call_name(n) or "").split(".")[-1]
+        if tail == "now" and (n.args or kwarg(n, "tz") is not None):
+            aware = True
+        elif tail == "fromtimestamp" and (len(n.args) > 1 or kwarg(n, "tz") is not None):
+            aware = True
+        elif tail == "astimezone":
+            aware = True
+    for n in ast.walk(recv):
+        if isinstance(n, ast.Call) and call_attr(n) == "replace":
+            tz = kwarg(n, "tzinfo")
+            if isinstance(tz, ast.Constant) and tz.value is None:
+                return False
+    return aware
+
+
+def z_shape_problem(fn: ast.AST, z: ast.AST) -> Optional[str]:
+    """Why the Z-labelled string *z* of *fn* is not an RFC 3339 date-time at every instant (None: no objection).
+
+    `isoformat()` without a timespec renders no fraction when microsecond == 0, so its width depends on the
+    instant: a positional cut of that text removes digits of the seconds (or the seconds) at such an instant.
+    `isoformat()` of an aware datetime already ends in an offset; a timespec coarser than seconds drops them."""
+    for s in closure(fn, z):
+        for n in ast.walk(s):
+            if isinstance(n, ast.Subscript) and isinstance(n.slice, ast.Slice):
+                iso = _iso_call(expand(fn, n.value))
+                if iso is not None and _timespec(iso) not in _FULL_TIMESPEC:
+                    return f"`{norm(n)[:60]}` cuts the text of isoformat() by position although its width depends on the instant (no fraction is rendered when microsecond == 0): at such an instant the seconds are cut off, the string is not an RFC 3339 date-time and denotes an earlier minute"
+    texts: List[ast.AST] = []
+    if isinstance(z, ast.BinOp):
+        texts = [z.left]
+    elif isinstance(z, ast.JoinedStr):
+        texts = [v.value for v in z.values if isinstance(v, ast.FormattedValue)]
+    for t in texts:
+        iso = _iso_call(expand(fn, t))
+        if iso is None:
+            continue
+        if _timespec(iso) in ("hours", "minutes"):
+            return f"isoformat(timespec={_timespec(iso)!r}) renders no seconds: the Z-labelled string is not an RFC 3339 date-time"
+        if _aware_receiver(fn, iso):
+            return "isoformat() of an offset-aware datetime already ends in `+00:00`; with the designator Z appended the string is not an RFC 3339 date-time"
+    return None
+
+
+# ---------------------------------------------------------------------------------------------------------
+# D5 one encoding: values of JSON-native types reach their bytes through the canonical JSON encoder only
+# ---------------------------------------------------------------------------------------------------------
+_BUFFER_TYPES = {"bytes", "bytearray", "memoryview"}
+_JSON_NATIVE = {"str", "int", "float", "bool", "list", "tuple", "dict", "NoneType", "Mapping", "Sequence", "Number"}
+
+
+def _type_names(t: ast.AST) -> Set[str]:
+    elts = t.elts if isinstance(t, (ast.Tuple, ast.List)) else [t]
+    out: Set[str] = set()
+    for e in elts:
+        d = dotted_name(e)
+        if d is None and isinstance(e, ast.Call) and call_name(e) == "type" and len(e.args) == 1 and is_const(e.args[0], None):
+            d = "NoneType"
+        out.add((d or ast.unparse(e)).split(".")[-1])
+    return out
+
+
+def _renders_as_text(v: ast.AST, p: str) -> Optional[str]:
+    """A sub-expression of *v* that renders parameter *p* itself as text (`p.encode()`, `str(p)`, f'{p}', ..)."""
+    for n in ast.walk(v):
+        if isinstance(n, ast.Call) and isinstance(n.func, ast.Attribute) and n.func.attr == "encode" and dotted_name(n.func.value) == p:
+            return norm(n)
+        if isinstance(n, ast.Call) and isinstance(n.func, ast.Name) and n.func.id in ("str", "repr", "format", "ascii") and n.args and dotted_name(n.args[0]) == p:
+            return norm(n)
+        if isinstance(n, ast.Call) and isinstance(n.func, ast.Attribute) and n.func.attr in ("__str__", "__repr__", "__format__") and dotted_name(n.func.value) == p:
+            return norm(n)
+        if isinstance(n, ast.FormattedValue) and dotted_name(n.value) == p:
+            return f"f'{{{p}}}'"
+        if isinstance(n, ast.BinOp) and isinstance(n.op, ast.Mod) and isinstance(n.left, ast.Constant) and isinstance(n.left.value, (str, bytes)) and any(isinstance(x, ast.Name) and x.id == p for x in ast.walk(n.right)):
+            return norm(n)
+    return None
+
+
+def _branches(vals: List[ast.AST]) -> List[ast.AST]:
+    """The alternatives of conditional expressions, flattened."""
+    out: List[ast.AST] = []
+    for v in vals:
+        if isinstance(v, ast.IfExp):
+            out.extend(_branches([v.body, v.orelse]))
+        elif not is_const(v, None):
+            out.append(v)
+    return out
+
+
+def serialize_encoders(repo: Repo, R: Report, rule: str) -> None:
+    """Every way `serialize` (and the helpers whose result it returns) turns a value into bytes.
+
+    `_stable_equal` decides `updated_keys` by comparing these bytes and the data digests hash them, so two different
+    values must not share an encoding.  Values of the JSON-native types all go through `canonical_json_bytes`
+    (one encoder, which quotes text and so keeps '300' and 300 apart); the only other producers allowed are the
+    object's own bytes (`bytes(x)` of an x known to be bytes / bytearray / memoryview) and the repr last resort
+    inside an exception handler.  A branch that takes a JSON-native type out of the canonical encoder, or renders
+    the value itself as text, makes a text value collide with the value whose JSON spelling it is."""
+    mod = repo.module(UTILS)
+    start = repo.func(UTILS, "serialize")
+    chain: List[ast.AST] = []
+    todo: List[ast.AST] = [start]
+    n_prod = 0
+    while todo:
+        raw = todo.pop(0)
+        if any(raw is c for c in chain):
+            continue
+        chain.append(raw)
+        try:
+            fn = normalize(repo, mod, raw, inline=False, copyprop="", ifexp=False)
+        except AnalysisError:
+            raise
+        except Exception:
+            fn = raw
+        qn = qualname_of(raw)
+        pp = pos_params(fn)
+        if not pp:
+            raise AnalysisError(f"{qn}: the serialised value is not a parameter")
+        p = pp[0]
+        g = CFG(fn)
+        for r in [r for r in walk_no_nested(fn) if isinstance(r, ast.Return) and r.value is not None and not is_const(r.value, None)]:
+            ids = g.nodes_for(r)
+            conds = dominating_conditions(g, fn, ids[0]) if ids else []
+            native: Set[str] = set()
+            buffers: Set[str] = set()  # texts X with a dominating isinstance(X, <bytes-like types only>)
+            for c in conds:
+                if isinstance(c, ast.Call) and call_name(c) == "isinstance" and len(c.args) == 2:
+                    names = _type_names(c.args[1])
+                    if dotted_name(c.args[0]) == p:
+                        native |= names & _JSON_NATIVE
+                    if names and names <= _BUFFER_TYPES:
+                        buffers.add(txt(c.args[0]))
+            handler = any(isinstance(a, ast.ExceptHandler) for a in ancestors(r))
+            for v in _branches([x for x in (every_of(fn, expand(fn, r.value)) or [expand(fn, r.value)])]):
+                n_prod += 1
+                where = norm(r)[:100]
+                if isinstance(v, ast.Call) and (call_name(v) or "").split(".")[-1] == "canonical_json_bytes" and qn != "canonical_json_bytes":
+                    R.ok(rule, UTILS, qn, where, "canonical JSON", r.lineno)
+                    if not any(t.name == "canonical_json_bytes" for t in chain + todo):
+                        todo.append(repo.func(UTILS, "canonical_json_bytes"))
+                    continue
+                if not native and any(isinstance(c, ast.Call) and call_name(c) == "json.dumps" and c.args and dotted_name(c.args[0]) == p for c in ast.walk(v)):
+                    R.ok(rule, UTILS, qn, where, "the JSON text of the value (quotes text, spells numbers / null / containers unquoted)", r.lineno)
+                    continue
+                if isinstance(v, ast.Call) and isinstance(v.func, ast.Name):
+                    local_def = mod.defs.get(v.func.id)
+                    targets = [local_def] if isinstance(local_def, ast.FunctionDef) and v.func.id not in all_params(fn) else []
+                    if len(targets) == 1:
+                        todo.append(targets[0])
+                        R.ok(rule, UTILS, qn, where, f"delegates to {targets[0].name}", r.lineno)
+                        continue
+                if not native and isinstance(v, ast.Call) and call_name(v) == "bytes" and len(v.args) == 1 and not v.keywords and txt(v.args[0]) in buffers:
+                    R.ok(rule, UTILS, qn, where, "the bytes-like object's own bytes", r.lineno)
+                    continue
+                text = _renders_as_text(v, p)
+                if handler and not native and text is not None and text.startswith("repr("):
+                    R.ok(rule, UTILS, qn, where, "repr last resort inside an exception handler", r.lineno)
+                    continue
+                if native:
+                    R.violation(rule, UTILS, qn, where, f"a value of type {'/'.join(sorted(native))} is turned into bytes by `{txt(v)[:60]}` instead of the canonical JSON encoder: its bytes equal the canonical JSON of another value (the text '300' and the number 300, 'null' and None, '[1,2]' and [1, 2]), so _stable_equal reports such a rewrite as unchanged (updated_keys misses the key) and different contents share a digest", r.lineno)
+                    continue
+                if text is not None:
+                    R.violation(rule, UTILS, qn, where, f"`{text[:60]}` renders the value itself as text outside the canonical JSON encoder: str()/format() give a text value and the value it spells the same bytes (so _stable_equal misses the update and different contents share a digest), repr() of an object without its own __repr__ contains its address (equal contents get different digests)", r.lineno)
+                    continue
+                raise AnalysisError(f"{qn}: bytes producer `{txt(v)[:80]}` of the serialisation chain has an unknown shape")
+    if n_prod < 4:
+        raise AnalysisError(f"serialize(): only {n_prod} bytes producer(s) found (5 confirmed by reading)")
+
+
+# ---------------------------------------------------------------------------------------------------------
+# D8 node-local facts: nothing written while one node is handled is read while a later node is described
+# ---------------------------------------------------------------------------------------------------------
+_GROW = _MUT | {"appendleft", "extendleft", "__setitem__", "__delitem__"}
+_CTOR_METHODS = {"__init__", "__post_init__", "__new__", "__init_subclass__"}
+
+
+def _self_attr(e: ast.AST, recv: str) -> Optional[str]:
+    """X when the container / target expression *e* is reached from `<recv>.X` (through subscripts, .get/.setdefault)."""
+    while True:
+        if isinstance(e, ast.Subscript):
+            e = e.value
+        elif isinstance(e, ast.Call) and isinstance(e.func, ast.Attribute) and e.func.attr in ("get", "setdefault"):
+            e = e.func.value
+        elif isinstance(e, ast.Attribute) and not (isinstance(e.value, ast.Name) and e.value.id == recv):
+            e = e.value
+        else:
+            break
+    if isinstance(e, ast.Attribute) and isinstance(e.value, ast.Name) and e.value.id == recv:
+        return e.attr
+    return None
+
+
+def _receiver(fn: ast.AST) -> Optional[str]:
+    a = fn.args.posonlyargs + fn.args.args
+    if not a or not isinstance(parent(getattr(fn, "_normal_of", fn)), ast.ClassDef):
+        return None
+    if any(dotted_name(d) in ("staticmethod", "classmethod") for d in fn.decorator_list):
+        return None
+    return a[0].arg
+
+
+def instance_writes(fn: ast.AST, recv: str, within: Optional[ast.AST] = None) -> List[Tuple[str, ast.AST, bool]]:
+    """(attribute, statement, rebinding?) for every write of *fn* to `<recv>.X` or into the object `<recv>.X` holds."""
+    out: List[Tuple[str, ast.AST, bool]] = []
+    for n in ast.walk(within if within is not None else fn):
+        tgts: List[ast.AST] = []
+        if isinstance(n, ast.Assign):
+            tgts = list(n.targets)
+        elif isinstance(n, (ast.AugAssign, ast.AnnAssign)) and (isinstance(n, ast.AugAssign) or n.value is not None):
+            tgts = [n.target]
+        elif isinstance(n, ast.Delete):
+            tgts = list(n.targets)
+        for t in [x for t in tgts for x in (t.elts if isinstance(t, (ast.Tuple, ast.List)) else [t])]:
+            if isinstance(t, (ast.Attribute, ast.Subscript)):
+                x = _self_attr(t, recv)
+                if x is not None:
+                    plain = isinstance(t, ast.Attribute) and isinstance(t.value, ast.Name) and isinstance(n, (ast.Assign, ast.AnnAssign))
+                    out.append((x, n, plain))
+        if isinstance(n, ast.Call) and isinstance(n.func, ast.Attribute) and n.func.attr in _GROW:
+            x = _self_attr(n.func.value, recv)
+            if x is not None:
+                out.append((x, stmt_of(n), False))
+    return out
+
+
+def _only_designates_cell(n: ast.AST) -> bool:
+    """The occurrence *n* of `<recv>.X` is only the target of a write: a store / delete, a subscript store below it, or
+    the receiver of a mutator whose result is discarded.  Such an occurrence brings no earlier state into the result."""
+    if isinstance(getattr(n, "ctx", None), (ast.Store, ast.Del)):
+        return True
+    cur, par = n, parent(n)
+    while isinstance(par, (ast.Subscript, ast.Attribute)) and par.value is cur:
+        if isinstance(par.ctx, (ast.Store, ast.Del)):
+            return not isinstance(parent(par), ast.AugAssign)
+        if isinstance(par, ast.Attribute) and par.attr in _GROW and par.attr not in ("pop", "popitem", "setdefault"):
+            call = parent(par)
+            return isinstance(call, ast.Call) and call.func is par and isinstance(parent(call), ast.Expr)
+        cur, par = par, parent(par)
+    return False
+
+
+def per_node_roots(repo: Repo, loop: ast.For) -> List[Tuple[str, ast.AST]]:
+    """(module rel, function) for every repo function called from the body of the node loop of execute(), plus the
+    delta computation (its receiver is a local, so the call does not resolve by itself)."""
+    omod = repo.module(ORCH)
+    out: List[Tuple[str, ast.AST]] = []
+    for st in loop.body:
+        for c in [x for x in ast.walk(st) if isinstance(x, ast.Call)]:
+            for m, f in repo.resolve_call(omod, c):
+                if isinstance(f, FuncNode) and not any(f is o[1] for o in out):
+                    out.append((m.rel, f))
+    dc = repo.maybe_func(DELTA, "DeltaCollector.compute")
+    if dc is not None:
+        out.append((DELTA, dc))
+    return out
+
+
+def node_local_facts(repo: Repo, R: Report, rule: str, ex: ast.AST, loop: ast.For) -> None:
+    """The record of node k is computed from node k (its processor, configuration, data and pre/post context).  The
+    functions called while one node is handled (the body of the node loop of execute() and everything it reaches)
+    therefore read no attribute of a long-lived object (`self.X` of the orchestrator, of a collector ..) that the
+    same region writes: such a cell carries what an earlier node (or an earlier run) left behind into the checks,
+    parameters, delta or digests recorded for a later one - a memo keyed by less than everything the answer
+    depends on, a counter, a remembered view.  Objects constructed inside the loop body (the delta collector) are
+    new for every node and are not long-lived."""
+    omod = repo.module(ORCH)
+    roots = [(repo.module(rel), f) for rel, f in per_node_roots(repo, loop)]
+    clo = repo.call_graph_closure(roots, stop=lambda m, n: not m.rel.startswith(("semantiva/execution/", "semantiva/trace/")))
+    region: List[Tuple[object, ast.AST, Optional[ast.AST]]] = [(omod, ex, loop)]
+    for m, f, _path in sorted(clo.values(), key=lambda t: (t[0].rel, getattr(t[1], "lineno", 0))):
+        if m.rel.startswith(("semantiva/execution/", "semantiva/trace/")) and isinstance(f, FuncNode) and f is not ex:
+            region.append((m, f, None))
+    if len(region) < 12:
+        raise AnalysisError(f"execute(): only {len(region)} functions found on the per-node path (30 confirmed by reading)")
+
+    def family(m, f: ast.AST) -> str:
+        c = parent(f)
+        if not isinstance(c, ast.ClassDef):
+            return ""
+        try:
+            return repo.mro(m, c)[-1][1].name if repo.mro(m, c) else c.name
+        except Exception:
+            return c.name
+
+    # the top-most repo class is `ABC`-free: mro() lists repo classes only, so the last entry is the root of the family
+    # an object constructed inside the loop body is new for every node: what is stored on it does not outlive the node
+    per_node_objects = {family(repo.module(rel), f) for rel, f in per_node_roots(repo, loop) if f.name == "__init__"}
+    cells: Dict[Tuple[str, str], Tuple[ast.AST, str]] = {}
+    for m, f, within in region:
+        recv = _receiver(f)
+        if recv is None or f.name in _CTOR_METHODS or family(m, f) in per_node_objects:
+            continue
+        for x, st, _plain in instance_writes(f, recv, within):
+            cells.setdefault((family(m, f), x), (st, qualname_of(f)))
+    for m, f, within in region:
+        recv = _receiver(f)
+        qn = qualname_of(f)
+        if recv is None or f.name in _CTOR_METHODS:
+            continue
+        fam = family(m, f)
+        bad: List[Tuple[ast.AST, str]] = []
+        g: Optional[CFG] = None
+        for n in (ast.walk(within) if within is not None else ast.walk(f)):
+            if not (isinstance(n, ast.Attribute) and isinstance(n.value, ast.Name) and n.value.id == recv and (fam, n.attr) in cells):
+                continue
+            if _only_designates_cell(n):
+                continue
+            # a value bound earlier in the same call (plain `self.X = ..` that dominates the read) is not history
+            fresh = False
+            own = [st for x, st, plain in instance_writes(f, recv, within) if x == n.attr and plain]
+            if own:
+                g = g or CFG(f)
+                use = g.nodes_for(stmt_of(n))
+                for st in own:
+                    w = g.nodes_for(st)
+                    if use and w and w[0] != use[0] and g.dominated_by_node(use[0], w[0]):
+                        fresh = True
+            if not fresh:
+                bad.append((n, n.attr))
+        if not bad:
+            R.ok(rule, m.rel, qn, f"{qn}: reads no instance state written on the per-node path", "", getattr(f, "lineno", 0))
+            continue
+        seen: Set[str] = set()
+        for n, attr in bad:
+            if attr in seen:
+                continue
+            seen.add(attr)
+            site, writer = cells[(fam, attr)]
+            R.violation(rule, m.rel, qn, norm(stmt_of(n))[:110], f"`{recv}.{attr}` outlives the node (written by `{norm(site)[:70]}` in {writer}, on the per-node path) and is read while a node's record is computed: what the SER says about this node (required keys / checks, parameters, delta, digests) then depends on which nodes the same object handled before - e.g. a second node of the same processor class with another parameter placement inherits the first node's answer", getattr(n, "lineno", 0))
+
+
 def run(repo: Repo, R: Report) -> None:
     R.assume(
         "datetime.now(timezone.utc) / utcnow() read the true UTC instant; time.time() does not step backwards within one node (wall-clock steps are outside the quantifier)",
@@ -565,6 +924,7 @@ def run(repo: Repo, R: Report) -> None:
 
     # ------------------------------------------------------------------ D1 UTC
     r_utc = R.rule("C07-D1-utc-timestamps", "every string labelled with the UTC designator Z is produced from a UTC-anchored clock read; SER timing and driver timestamps come from such producers", 4)
+    r_shape = R.rule("C07-D1-rfc3339-shape", "the text that receives the designator Z is a complete RFC 3339 date-time at every instant: positional cuts are applied only to fixed-width renderings (isoformat with an explicit timespec of seconds or finer, strftime), never to isoformat() whose width depends on the microsecond field; no offset besides the Z", 2)
     producers: Dict[str, str] = {}
     n_z = 0
     for rel in TS_FILES:
@@ -582,6 +942,8 @@ def run(repo: Repo, R: Report) -> None:
             own = [z for z in z_labelled(fn) if next((a for a in ancestors(z) if isinstance(a, FuncNode)), None) is fn]
             for z in own:
                 n_z += 1
+                why = z_shape_problem(fn, z)
+                R.check(why is None, r_shape, rel, qn, norm(stmt_of(z))[:110], why or "", z.lineno)
                 # the clock may be read in this expression or in a local it uses
                 scope: List[ast.AST] = closure(fn, z)
                 verdicts = [utc_anchored(s) for s in scope]
@@ -1011,6 +1373,24 @@ def run(repo: Repo, R: Report) -> None:
     R.check(base_ok, r_d, DELTA, CQ, "updated_keys range over keys(post) & keys(pre)", f"updated candidates are not exactly the common keys: {kshow(got[1] if got[0] == 'filter' else got)[:120]}", comp.lineno)
     R.check(got[0] == "filter" and len(got[2]) == 1 and next(iter(got[2])) in differs, r_d, DELTA, CQ, "updated_keys = common keys whose value differs", f"updated keys are not the common keys whose value changed: {kshow(got)[:140]}", comp.lineno)
     R.check(is_sorted_expr(ck) and is_sorted_expr(uk), r_d, DELTA, CQ, "created_keys / updated_keys are sorted lists", "the returned key lists are not sorted", comp.lineno)
+    # the 'differs' test itself: equality of the two values under one injective rendering
+    if any(isinstance(c, ast.Call) and call_name(c) == "_stable_equal" for c in ast.walk(uk)):
+        se = repo.func(DELTA, "_stable_equal")
+        sep = pos_params(se)
+        se_rets = [x for r in walk_no_nested(se) if isinstance(r, ast.Return) for x in (every_of(se, expand(se, r.value)) or [r.value])]
+
+        def same_rendering(e: ast.AST) -> bool:
+            if not (isinstance(e, ast.Compare) and len(e.ops) == 1 and isinstance(e.ops[0], ast.Eq) and len(sep) >= 2):
+                return False
+            a, b = txt(e.left), txt(e.comparators[0])
+            hole = "\x00"
+            pa = re.sub(rf"\b{re.escape(sep[0])}\b", hole, a)
+            pb = re.sub(rf"\b{re.escape(sep[1])}\b", hole, b)
+            if hole not in pa:
+                pa, pb = re.sub(rf"\b{re.escape(sep[1])}\b", hole, a), re.sub(rf"\b{re.escape(sep[0])}\b", hole, b)
+            return hole in pa and pa == pb and pa.replace(" ", "") in (hole, f"serialize({hole})", f"sha256_bytes(serialize({hole}))", f"canonical_json_bytes({hole})")
+
+        R.check(bool(se_rets) and all(same_rendering(e) for e in se_rets), r_d, DELTA, "_stable_equal", "_stable_equal(a, b) = (serialize(a) == serialize(b)), fallback a == b", "the test that decides `updated_keys` is not the equality of the two values (under serialize): a changed value can be reported unchanged or an unchanged one as updated", se.lineno)
     # execute: provider diffs the pre snapshot (before) with a fresh post snapshot (at call time, after the node)
     recv = prov_body.func.value if isinstance(prov_body, ast.Call) and isinstance(prov_body.func, ast.Attribute) else None
     recv_defs = every_ex.get(recv.id, []) if isinstance(recv, ast.Name) else []
@@ -1062,6 +1442,8 @@ def run(repo: Repo, R: Report) -> None:
     dumps = [c for c in calls_in(cj) if call_name(c) == "json.dumps"]
     ok = bool(dumps) and isinstance(kwarg(dumps[0], "sort_keys"), ast.Constant) and kwarg(dumps[0], "sort_keys").value is True
     R.check(ok, r_dig, UTILS, "canonical_json_bytes", "json.dumps(..., sort_keys=True)", "canonical JSON depends on mapping order: equal content gives different digests", cj.lineno)
+    r_enc = R.rule("C07-D5-one-encoding", "serialize() (whose bytes are hashed into the data digests and compared by _stable_equal to decide updated_keys) gives different values different bytes: values of JSON-native types (str, numbers, bool, None, list, dict) are encoded by canonical_json_bytes only; the other producers are the own bytes of a bytes-like object and the repr last resort inside an exception handler", 4)
+    serialize_encoders(repo, R, r_enc)
     summ_fns = {}
     summ_roles: Dict[str, Dict[str, Optional[str]]] = {}  # helper -> producer -> the parameter it summarises
     for helper, keys in (("_init_summaries", {"input_data": "_data_summary", "pre_context": "_context_summary"}), ("_augment_output_summaries", {"output_data": "_data_summary", "post_context": "_context_summary"})):
@@ -1144,3 +1526,16 @@ def run(repo: Repo, R: Report) -> None:
     for c in calls_in(ex):
         if call_attr(c) == "_make_ser_record":
             R.check(NK is not None and dotted_name(kwarg(c, NK)) == NODE, r_misc, ORCH, EXECUTE, f"_make_ser_record(node=<the node that ran>) ({getattr(kwarg(c, 'status'), 'value', '?')})", "the SER is built for a different node object than the one that ran", c.lineno)
+
+    # ------------------------------------------------------------------ D8 node-local facts
+    r_loc = R.rule("C07-D8-node-local-facts", "what a SER says about a node is computed from that node, its configuration, data and pre/post context: the per-node path of execute() (loop body and everything it calls in the execution / trace packages) reads no instance attribute that the same path writes (memo, counter, remembered view) - such a cell carries an earlier node's or run's answer into a later record", 12)
+    node_local_facts(repo, R, r_loc, ex, loop)
+    from . import c04_rest
+
+    R.rule_prefix = "C07-D8/"
+    try:
+        sl = [(omod_rel, qualname_of(f), f) for omod_rel, f in per_node_roots(repo, loop)]
+        c04_rest.no_process_state(repo, R, sl)
+        R.minimum["C07-D8/C04-D3a-no-process-state"] = 12
+    finally:
+        R.rule_prefix = ""
